@@ -38,7 +38,7 @@ type c16pending struct {
 // C16 — announce hands each node back its own token, and always finishes.
 func c16(c *evid.Ctx) {
 	r := c.R.Fork("c16")
-	runs := c.Scale(300, 20000)
+	runs := c.Scale(300, 5000)
 	for run := 0; run < runs && c.NumViolations() < 20; run++ {
 		c16run(c, r, run)
 	}
